@@ -19,7 +19,7 @@ from __future__ import annotations
 import ast
 from .core import Repo, CLASSES, EDGELIST, NODELINK, AnalysisError, src
 from .ordertype import enumerate_order_types, OrderType, Undetermined
-from .absint import (NeedZero, Interp, Int, Const, NONE, TRUE, FALSE, NodeV, SelfV, TupleV, ListObj, DictObj, RangeV,
+from .absint import (IterV, NeedZero, Interp, Int, Const, NONE, TRUE, FALSE, NodeV, SelfV, TupleV, ListObj, DictObj, RangeV,
                      LoopVar, AbstractRaise, Unsupported, Opaque, BoundMethod, Builtin, TypeV, run_all_choices)
 from .world_graph import GraphWorld, bind_args, AdjMap, NodeMap
 
@@ -232,6 +232,8 @@ class CtorWorld(GraphWorld):
             obj.other.append(("call", name, args))
             return Opaque("result of %s" % name)
         if isinstance(obj, Const) and isinstance(obj.v, str) and name == "join" and len(args) == 1:
+            if isinstance(args[0], IterV):
+                args = [ListObj(args[0].drain())]
             if isinstance(args[0], (ListObj, TupleV)):
                 return TupleV(["row"] + list(args[0].items)) if False else RowV(obj.v, list(args[0].items))
         return super().call_method(ip, obj, name, args, kwargs, node)
